@@ -1002,6 +1002,38 @@ theorem neutral_of_sub {k : ViewKind} {v : Bytes} {r' r : BitRange} (h : BitRang
 theorem byteHi_mul8 (a b : Nat) : (BitRange.mk a (b * 8)).byteHi = b := by
   unfold BitRange.byteHi; simp; omega
 
+/-! ### the extracted setter table (`Generated/Setters.lean`), evaluated
+
+Each lemma is decided on the table the translator wrote from the current source: when a setter changes between
+`gen_field_write!` and `gen_unsafe_field_write!` (or a setter is added) the lemma, and with it
+`safe_setters_neutral`, has to be re-established. -/
+
+theorem safeSettersOf_header : safeSettersOf "ScionHeaderView" =
+    [CommonHeader.TRAFFIC_CLASS_RNG, CommonHeader.FLOW_ID_RNG, CommonHeader.NEXT_HEADER_RNG,
+     AddressHeader.SRC_ISD_RNG.shift CommonHeader.SIZE_BYTES, AddressHeader.SRC_AS_RNG.shift CommonHeader.SIZE_BYTES,
+     AddressHeader.DST_ISD_RNG.shift CommonHeader.SIZE_BYTES, AddressHeader.DST_AS_RNG.shift CommonHeader.SIZE_BYTES] := by
+  decide
+
+theorem safeSettersOf_std : safeSettersOf "StandardPathView" =
+    [StdPathMeta.CURR_INFO_FIELD_RNG, StdPathMeta.CURR_HOP_FIELD_RNG] := by decide
+
+theorem safeSettersOf_udp : safeSettersOf "UdpDatagramView" =
+    [UdpDatagram.SRC_PORT_RNG, UdpDatagram.DST_PORT_RNG, UdpDatagram.CHECKSUM_RNG] := by decide
+
+theorem safeSettersOf_scmp : safeSettersOf "ScmpPayloadView" = [ScmpMessage.CODE_RNG, ScmpMessage.CHECKSUM_RNG] := by
+  decide
+
+/-- the setters of an info / hop field view stay inside the 8 / 12 bytes of the field (this is what lets the
+parent views list "all path data after the meta header" as one safe range) -/
+theorem safeSettersOf_info : ∀ r ∈ safeSettersOf "InfoFieldView", r.wf ∧ r.byteHi ≤ InfoField.SIZE_BYTES := by decide
+theorem safeSettersOf_hop : ∀ r ∈ safeSettersOf "HopFieldView", r.wf ∧ r.byteHi ≤ HopField.SIZE_BYTES := by decide
+
+/-- **no safe setter of a typed SCMP message view touches the type byte** (the only size-determining field of
+the `ScmpPayloadView` the typed view is handed out from by `message_mut()`), and every one stays inside the
+fixed header of its kind -/
+theorem safeSettersOf_msg : ∀ k ∈ scmpKinds, ∀ r ∈ safeSettersOf (msgViewName k),
+    r.wf ∧ r.byteHi ≤ k.headerSize ∧ r.disjoint ScmpMessage.TYPE_RNG := by decide
+
 /-- every safe setter of the header view (and every write through `path_mut()`'s mutable sub-views) is
 size-neutral on an accepted header -/
 theorem headerSafe_neutral (k : ViewKind) (v : Bytes) (l : HdrLayout) (hs : HdrSpec v l) (hlen : l.headerLen ≤ v.length)
@@ -1030,6 +1062,7 @@ theorem headerSafe_neutral (k : ViewKind) (v : Bytes) (l : HdrLayout) (hs : HdrS
   apply neutral_of_sub hsub
   · -- in bounds
     unfold headerSafe at hr
+    rw [safeSettersOf_header, safeSettersOf_std] at hr
     simp only [hoff] at hr
     rcases List.mem_append.1 hr with hr | hr
     · simp only [List.mem_cons, List.mem_nil_iff, or_false] at hr
@@ -1038,7 +1071,7 @@ theorem headerSafe_neutral (k : ViewKind) (v : Bytes) (l : HdrLayout) (hs : HdrS
           CommonHeader.NEXT_HEADER_RNG, AddressHeader.SRC_ISD_RNG, AddressHeader.SRC_AS_RNG,
           AddressHeader.DST_ISD_RNG, AddressHeader.DST_AS_RNG, e12] <;> omega
     · split at hpath <;> rename_i hkk <;> simp only [hkk] at hr
-      · simp only [List.mem_cons, List.mem_nil_iff, or_false] at hr
+      · simp only [List.map_cons, List.map_nil, List.cons_append, List.nil_append, List.mem_cons, List.mem_nil_iff, or_false] at hr
         obtain ⟨p1, p2, p3⟩ := hpath
         rcases hr with rfl | rfl | rfl
         · simp [BitRange.byteHi, BitRange.shift, StdPathMeta.CURR_INFO_FIELD_RNG]; omega
@@ -1070,6 +1103,7 @@ theorem headerSafe_neutral (k : ViewKind) (v : Bytes) (l : HdrLayout) (hs : HdrS
             r = StdPathMeta.CURR_HOP_FIELD_RNG.shift off ∨ (off + 4) * 8 ≤ r.start)) ∨
          (pathKind (commonFields v).pt ≠ .scion ∧ off * 8 ≤ r.start)) := by
       unfold headerSafe at hr
+      rw [safeSettersOf_header, safeSettersOf_std] at hr
       simp only [hoff] at hr
       rcases List.mem_append.1 hr with hr | hr
       · simp only [List.mem_cons, List.mem_nil_iff, or_false] at hr
@@ -1083,7 +1117,7 @@ theorem headerSafe_neutral (k : ViewKind) (v : Bytes) (l : HdrLayout) (hs : HdrS
           simp [BitRange.shift, AddressHeader.SRC_ISD_RNG, AddressHeader.SRC_AS_RNG,
             AddressHeader.DST_ISD_RNG, AddressHeader.DST_AS_RNG, e12]; omega
       · split at hpath <;> rename_i hkk <;> simp only [hkk] at hr
-        · simp only [List.mem_cons, List.mem_nil_iff, or_false] at hr
+        · simp only [List.map_cons, List.map_nil, List.cons_append, List.nil_append, List.mem_cons, List.mem_nil_iff, or_false] at hr
           obtain ⟨p1, p2, p3⟩ := hpath
           rcases hr with rfl | rfl | rfl
           · exact ⟨by simp [BitRange.shift, StdPathMeta.CURR_INFO_FIELD_RNG]; omega,
@@ -1191,7 +1225,7 @@ theorem safe_setters_neutral (k : ViewKind) (v : Bytes) (h : requiredSize k v = 
   | stdPath =>
     obtain ⟨h1, h2, h3⟩ := (StdPath.requiredSize_ok_iff v _).1 h
     have e4 : StdPathMeta.SIZE_BYTES = 4 := by decide
-    simp only [safeSetterRanges, List.mem_cons, List.mem_nil_iff, or_false] at hr
+    simp only [safeSetterRanges, safeSettersOf_std, List.cons_append, List.nil_append, List.mem_cons, List.mem_nil_iff, or_false] at hr
     apply neutral_of_sub hsub
     · rcases hr with rfl | rfl | rfl
       · simp [BitRange.byteHi, StdPathMeta.CURR_INFO_FIELD_RNG]; omega
@@ -1210,20 +1244,18 @@ theorem safe_setters_neutral (k : ViewKind) (v : Bytes) (h : requiredSize k v = 
     exact neutral_of_sub hsub (by omega) (by intro p hp; simp [protectedRanges] at hp)
   | infoField =>
     obtain ⟨h1, h2⟩ := (fixed_ok_iff _ _ v _).1 h
-    simp only [safeSetterRanges, List.mem_cons, List.mem_nil_iff, or_false] at hr
-    subst hr
-    have e : InfoField.TOTAL_RNG.byteHi = InfoField.SIZE_BYTES := by decide
+    simp only [safeSetterRanges] at hr
+    obtain ⟨_, hb⟩ := safeSettersOf_info r hr
     exact neutral_of_sub hsub (by omega) (by intro p hp; simp [protectedRanges] at hp)
   | hopField =>
     obtain ⟨h1, h2⟩ := (fixed_ok_iff _ _ v _).1 h
-    simp only [safeSetterRanges, List.mem_cons, List.mem_nil_iff, or_false] at hr
-    subst hr
-    have e : HopField.TOTAL_RNG.byteHi = HopField.SIZE_BYTES := by decide
+    simp only [safeSetterRanges] at hr
+    obtain ⟨_, hb⟩ := safeSettersOf_hop r hr
     exact neutral_of_sub hsub (by omega) (by intro p hp; simp [protectedRanges] at hp)
   | udp =>
     obtain ⟨h1, h2, h3⟩ := (Udp.requiredSize_ok_iff v _).1 h
     have e8 : UdpDatagram.HEADER_SIZE_BYTES = 8 := by decide
-    simp only [safeSetterRanges, List.mem_cons, List.mem_nil_iff, or_false] at hr
+    simp only [safeSetterRanges, safeSettersOf_udp, List.cons_append, List.nil_append, List.mem_cons, List.mem_nil_iff, or_false] at hr
     apply neutral_of_sub hsub
     · rcases hr with rfl | rfl | rfl | rfl
       · simp [BitRange.byteHi, UdpDatagram.SRC_PORT_RNG]; omega
@@ -1239,18 +1271,51 @@ theorem safe_setters_neutral (k : ViewKind) (v : Bytes) (h : requiredSize k v = 
   | scmp =>
     have hmin := Scmp.min_le _ _ h
     have e8 : scmpMinSize = 8 := by decide
-    simp only [safeSetterRanges, List.mem_cons, List.mem_nil_iff, or_false] at hr
-    apply neutral_of_sub hsub
-    · rcases hr with rfl | rfl | rfl
-      · simp [BitRange.byteHi, ScmpMessage.CODE_RNG]; omega
-      · simp [BitRange.byteHi, ScmpMessage.CHECKSUM_RNG]; omega
-      · rw [byteHi_mul8]; exact Nat.le_refl _
-    · intro p hp
-      simp only [protectedRanges, List.mem_cons, List.mem_nil_iff, or_false] at hp
-      subst hp
-      rcases hr with rfl | rfl | rfl <;>
-        simp [BitRange.disjoint, ScmpMessage.CODE_RNG, ScmpMessage.CHECKSUM_RNG, ScmpMessage.TYPE_RNG]
-  | scmpMsg i => simp [safeSetterRanges] at hr
+    simp only [requiredSize] at h
+    rw [Scmp.requiredSize_eq v hmin] at h
+    have hk := scmpRow_mem (readBits (v.take scmpMinSize) ScmpMessage.TYPE_RNG)
+    obtain ⟨hs1, hs2⟩ := (ScmpMsg.requiredSize_ok_iff _ v _).1 h
+    have hwf := (scmpKinds_wf _ hk).1
+    simp only [safeSetterRanges, safeSettersOf_scmp, List.cons_append, List.nil_append, List.mem_cons] at hr
+    rcases hr with rfl | rfl | hr
+    · exact neutral_of_sub hsub (by simp [BitRange.byteHi, ScmpMessage.CODE_RNG]; omega)
+        (by intro p hp; simp only [protectedRanges, List.mem_cons, List.mem_nil_iff, or_false] at hp; subst hp
+            simp [BitRange.disjoint, ScmpMessage.CODE_RNG, ScmpMessage.TYPE_RNG])
+    · exact neutral_of_sub hsub (by simp [BitRange.byteHi, ScmpMessage.CHECKSUM_RNG]; omega)
+        (by intro p hp; simp only [protectedRanges, List.mem_cons, List.mem_nil_iff, or_false] at hp; subst hp
+            simp [BitRange.disjoint, ScmpMessage.CHECKSUM_RNG, ScmpMessage.TYPE_RNG])
+    · unfold scmpMsgSafe at hr
+      rcases List.mem_append.1 hr with hr | hr
+      · obtain ⟨_, hb, hd⟩ := safeSettersOf_msg _ hk r hr
+        exact neutral_of_sub hsub (by omega)
+          (by intro p hp; simp only [protectedRanges, List.mem_cons, List.mem_nil_iff, or_false] at hp; subst hp; exact hd)
+      · split at hr
+        · simp only [List.mem_cons, List.mem_nil_iff, or_false] at hr
+          subst hr
+          exact neutral_of_sub hsub (by rw [byteHi_mul8]; exact Nat.le_refl _)
+            (by intro p hp; simp only [protectedRanges, List.mem_cons, List.mem_nil_iff, or_false] at hp; subst hp
+                refine Or.inr ?_
+                show ScmpMessage.TYPE_RNG.stop ≤ _ * 8
+                have : ScmpMessage.TYPE_RNG.stop = 8 := by decide
+                omega)
+        · simp at hr
+  | scmpMsg i =>
+    obtain ⟨hs1, hs2⟩ := (ScmpMsg.requiredSize_ok_iff _ v _).1 h
+    simp only [safeSetterRanges] at hr
+    unfold scmpMsgSafe at hr
+    rcases List.mem_append.1 hr with hr | hr
+    · have hk : scmpKinds.getD i (scmpRow 256) ∈ scmpKinds := by
+        unfold List.getD
+        cases hg : scmpKinds[i]? with
+        | none => simpa using scmpRow_mem 256
+        | some k => simpa using List.mem_of_getElem? hg
+      obtain ⟨_, hb, _⟩ := safeSettersOf_msg _ hk r hr
+      exact neutral_of_sub hsub (by omega) (by intro p hp; simp [protectedRanges] at hp)
+    · split at hr
+      · simp only [List.mem_cons, List.mem_nil_iff, or_false] at hr
+        subst hr
+        exact neutral_of_sub hsub (by rw [byteHi_mul8]; exact Nat.le_refl _) (by intro p hp; simp [protectedRanges] at hp)
+      · simp at hr
 
 /-! ## mutator sequences -/
 
@@ -1598,18 +1663,20 @@ def DpPath.Representable : DpPath → Prop
   | _ => True
 
 def Payload.Representable : Payload → Prop
-  | .scmp m => m.kind = "Unknown" → (scmpRow m.typ).code = none
+  | .scmp m => (m.kind = "Unknown" → (scmpRow m.typ).code = none) ∧ m.code < 256
   | _ => True
 
 /-- **Representable**: the packet model fits the SCION wire format – written from the format, not from the
 encoder: 16-bit payload length, header length ≤ 255·4 and 4-aligned, 20-bit flow id, 2-bit host type id with a
 4–16 byte address that is not one of the known types, 1–3 segments of 1–63 hop fields with in-range current
 indices that fit their 2- and 6-bit fields, an unsupported path whose type is none of the supported ones, an
-unknown SCMP message whose type is none of the known ones. -/
+unknown SCMP message whose type is none of the known ones; the next-header and SCMP code values are the
+canonical ones of their Rust enums (a byte; `256 + k` stands for the aliasing `Other(k)` / `Unassigned(k)` with an
+assigned `k`, which the decoder can never produce). -/
 def PacketM.Representable (p : PacketM) : Prop :=
   p.payload.requiredSize p.header.requiredSize ≤ 65535 ∧
   p.header.requiredSize ≤ 1020 ∧ p.header.requiredSize % 4 = 0 ∧
-  p.header.flowId < 2 ^ 20 ∧
+  p.header.flowId < 2 ^ 20 ∧ p.header.nextHeader < 256 ∧
   p.header.dstHost.Representable ∧ p.header.srcHost.Representable ∧
   p.header.path.Representable ∧ p.payload.Representable
 
@@ -1670,6 +1737,10 @@ theorem payload_valid_repr (p : Payload) (hv : p.wireValid = .ok ()) : p.Represe
     split at hv
     · contradiction
     rename_i h
+    split at hv
+    · contradiction
+    rename_i hcode
+    refine ⟨?_, by omega⟩
     intro hk
     cases hc : (scmpRow m.typ).code with
     | none => rfl
@@ -1704,13 +1775,16 @@ theorem encode_ok_representable (p : PacketM) (hw : p.WellTyped) (b : Bytes) (h 
   rename_i hflow
   split at hh
   · contradiction
+  rename_i hnh
+  split at hh
+  · contradiction
   rename_i hdst
   split at hh
   · contradiction
   rename_i hsrc
   have e1020 : ScionHeader.MAX_SIZE_BYTES = 1020 := by decide
   have eflow : CommonHeader.FLOW_ID_RNG.maxUint = 2 ^ 20 - 1 := by decide
-  exact ⟨by omega, by omega, by omega, by omega, host_valid_repr _ hw.dst hdst, host_valid_repr _ hw.src hsrc,
+  exact ⟨by omega, by omega, by omega, by omega, by omega, host_valid_repr _ hw.dst hdst, host_valid_repr _ hw.src hsrc,
     path_valid_repr _ hw.ptype hh, payload_valid_repr _ hp⟩
 
 end ScionVerif.Packet
